@@ -277,6 +277,7 @@ static void report_access (int cls, const char *what, Fibre *f, uintptr_t pc, ui
 static inline void shadow_access (uintptr_t addr, int size, int kind, uintptr_t pc) {
 	Fibre *f = g.cur;
 	if (!f || !g.in_run) return;
+	if (g.site_hit && pc - g.text_lo < g.text_len) g.site_hit[pc - g.text_lo] = 1;
 	if (++g.plain_since_sched > 20000000) {
 		char a[256];
 		g.plain_since_sched = 0;
@@ -1410,6 +1411,10 @@ void rt_init () {
 	sigaction (SIGALRM, &sal, NULL);
 	g.stamp = 1;
 	g.B1 = 30000; g.B2 = 300000;
+	if (getenv ("NSIM_SITES") && !symtab.empty ()) {
+		g.text_lo = symtab.front ().lo; g.text_len = symtab.back ().hi - g.text_lo;
+		g.site_hit = (unsigned char *) calloc (g.text_len + 1, 1);
+	}
 	// the one deliberate suppression: waiter_for_thread is an ordinary static without TLS
 	g.suppress_addr = sym_addr ("waiter_for_thread");
 }
@@ -1448,6 +1453,13 @@ void rt_cov_accumulate () {
 	if (!cov_acc) cov_acc = (uint64_t *) calloc (n + 1, 8);
 	uint64_t *b = (uint64_t *) __start_nsyncbss;
 	for (size_t i = 0; i < n; i++) cov_acc[i] += b[i];
+}
+void rt_dump_sites (const char *path) {
+	if (!g.site_hit) return;
+	FILE *fp = fopen (path, "w");
+	if (!fp) return;
+	for (size_t i = 0; i < g.text_len; i++) if (g.site_hit[i]) fprintf (fp, "%lx\n", (unsigned long) (g.text_lo + i));
+	fclose (fp);
 }
 void rt_cov_restore () {
 	if (!__start_nsyncbss || !cov_acc) return;
